@@ -158,7 +158,7 @@ def parseValidater (k : String) : Option Validater :=
         | some u, some p => some (u, p)
         | _, _ => none
       | _ => none
-    entries.map fun tab => some fun uname => (tab.find? (·.1 == uname)).map (·.2)
+    entries.map fun tab => some (defaultValidater tab)
 
 def showSlots (ag : Agent) : String :=
   let items := (List.range ag.sent.size).filterMap fun i =>
